@@ -331,7 +331,7 @@ def validate_runner_compatibility(
 
     # Check interrupts
     if graph.has_interrupts and not capabilities.supports_interrupts:
-        interrupt_names = [node.name for node in graph._nodes.values() if node.is_interrupt]
+        interrupt_names = graph.interrupt_paths
         raise IncompatibleRunnerError(
             f"Graph contains InterruptNode(s) but runner doesn't support interrupts: {', '.join(interrupt_names)}. Use AsyncRunner instead.",
             node_name=interrupt_names[0] if interrupt_names else None,
